@@ -6,6 +6,10 @@ from .ctl import Runner
 ALL = ("quantity", "quantity.predefined", "quantity.money")
 
 
+class Unobservable(Exception):
+    """raised by a judge when what it must look at cannot be read"""
+
+
 class Case:
     __slots__ = ("steps", "judge", "info", "isolate")
 
@@ -87,7 +91,12 @@ def run_cases(chk, R: Runner, cases, per_program=40, preload=ALL,
             ci, _, kk = k.partition("|")
             per.setdefault(int(ci), {})[kk] = v
         for ci in index[prog["pid"]]:
-            cases[ci].judge(per.get(ci, {}), rec, cases[ci])
+            try:
+                cases[ci].judge(per.get(ci, {}), rec, cases[ci])
+            except Unobservable as exc:
+                # the observation channel itself is gone (e.g. a repr the
+                # judge parses changed its format): neither held nor violated
+                chk.inconclusive_because("cannot observe: %s" % exc)
             judged += 1
     return judged
 
@@ -150,5 +159,8 @@ def world_program(chk, plan, subcases, wid, on_ok=None, extra_pre=None):
         for pre, judge in index:
             sub = {k[len(pre):]: v for k, v in obs.items()
                    if k.startswith(pre)}
-            judge(sub)
+            try:
+                judge(sub)
+            except Unobservable as exc:
+                chk.inconclusive_because("cannot observe: %s" % exc)
     return Case(steps, judge_all, isolate=True)
